@@ -47,7 +47,7 @@ pub fn meta(tier: Tier) -> CheckMeta {
                no panic on any pipeline thread. distinct = hash(config, submission order); non-trivial = \
                submission order differed from creation order and >= 2 batches wrote one key.",
         assumptions: vec!["every created batch is submitted (a batch that is never submitted is C05's subject)".into()],
-        parts: vec![PartSpec { name: "native", nshards: 16, budget_s: tier.pick(300, 2400), env: vec![], program: None }],
+        parts: vec![PartSpec { name: "native", nshards: 16, budget_s: tier.pick(300, 2400), env: vec![], program: None, prepare: None, sanitizer: None }],
         must_be_nonzero: vec![("lifetimes_submission_differs_from_creation", "submission order never differed from creation order"), ("keys_written_by_several_batches", "no overlapping writes")],
     }
 }
@@ -251,7 +251,7 @@ pub fn worker(ctx: &WorkerCtx) -> Report {
     hooks::install();
     let mut rep = Report::default();
     let base = Rng::new(ctx.seed).derive(1000 + ctx.shard as u64);
-    let n: u64 = if ctx.part == "miri" { 2 } else { ctx.tier.pick(150, 5000) };
+    let n: u64 = if ctx.part == "miri" { 2 } else { ctx.pick(2000, 40_000) };
     let mut seen = std::collections::HashSet::new();
     for i in 0..n {
         let mut r = base.derive(i);
